@@ -23,6 +23,7 @@ type HarnessCfg struct {
 	MaxPaths    int            `json:"max_paths"`
 	Known       []string       `json:"known"`
 	ReverseMaps bool           `json:"reverse_maps"`
+	Concrete    []uint64       `json:"concrete"` // run once with these nondet values (conformance / debugging)
 	AllowGo     bool           `json:"allow_go"`
 	Expect      []string       `json:"expect_reach"`
 }
@@ -188,7 +189,7 @@ func main() {
 		}
 		for _, n := range names {
 			h := &Harness{Name: n, Fn: found[n], MaxSteps: hc.MaxSteps, MaxDepth: hc.MaxDepth, MaxPaths: hc.MaxPaths,
-				Known: map[string]bool{}, ReverseMaps: hc.ReverseMaps, AllowGo: hc.AllowGo, Bounds: hc.Bounds}
+				Known: map[string]bool{}, ReverseMaps: hc.ReverseMaps, AllowGo: hc.AllowGo, Bounds: hc.Bounds, Concrete: hc.Concrete}
 			if h.MaxSteps == 0 {
 				h.MaxSteps = 2_000_000
 			}
